@@ -503,7 +503,46 @@ def r02_7(chk):
     chk.floor("R02.7", 6 + 4 + 1 + 9 + 1 + 8 + 2)
 
 
+def r02_8(chk):
+    """Published coefficients: numeric literals of the model functions and the token streams of the IERS tables equal the
+    committed references (bvstatic/data/constants.json, tables.json)."""
+    import hashlib
+    import json
+    from pathlib import Path
+    from ..frozen import compare
+    for rel, fn, what in ((I80, "_precesion", "IAU-76 precession polynomials"), (I80, "_nutation", "IAU-80 fundamental arguments"),
+                          (I80, "equinox", "equation of the equinoxes, kinematic terms"), (I80, "_sideral", "GMST polynomial (IAU-82)"),
+                          (I10, "_planets", "IERS 2010 fundamental arguments"), (I10, "_xysxy2", "IERS 2010 X, Y, s polynomial parts"),
+                          (I10, "_sideral", "Earth rotation angle"), (I10, "_earth_orientation", "TIO locator s′")):
+        f = chk.repo.func(rel, fn)
+        compare(chk, "R02.8", f"{rel}::{fn}", f.node, loc(f, f.node), what)
+    ref = json.loads((Path(__file__).resolve().parent.parent / "data" / "tables.json").read_text())
+    for name, want in sorted(ref.items()):
+        p = chk.repo.root / "beyond" / "frames" / "data" / name
+        if not p.exists():
+            raise AnalysisError(f"data table {name} not found")
+        toks = []
+        for line in p.read_text(encoding="utf-8").splitlines():
+            if line.strip().startswith("#") or not line.strip():
+                continue
+            toks.extend(line.split())
+        got = hashlib.sha256(" ".join(toks).encode()).hexdigest()
+        ok = got == want["sha256"] and len(toks) == want["tokens"]
+        chk.inst("R02.8", f"beyond/frames/data/{name}::coefficients", ok, f"{len(toks)} tokens equal the reference table" if ok else
+                 f"the coefficient table differs from the reference ({len(toks)} tokens vs {want['tokens']})", f"beyond/frames/data/{name}")
+    # the readers of the tables
+    t80 = chk.repo.func(I80, "_tab")
+    ok = "([int(x) for x in fields[:5]], [float(x) for x in fields[6:]])" in unparse(t80.node) and "'tab5.1.txt'" in unparse(t80.node)
+    chk.inst("R02.8", f"{t80.ref}", ok, "five integer multipliers, then (after the period column) the four coefficients" if ok else "reader changed", loc(t80, t80.node))
+    t10 = chk.repo.func(I10, "_tab")
+    t = unparse(t10.node)
+    ok = "elements = ['tab5.2a.txt', 'tab5.2b.txt', 'tab5.2d.txt']" in t and "fields = line.split()[1:]" in t and "fields[:2] = [float(x) for x in fields[:2]]" in t and "fields[2:] = [int(x) for x in fields[2:]]" in t
+    chk.inst("R02.8", f"{t10.ref}", ok, "X, Y, s tables; index dropped, two amplitudes, integer multipliers" if ok else "reader changed", loc(t10, t10.node))
+    chk.floor("R02.8", 14)
+
+
 def run(chk):
+    chk.rule("R02.8", "published coefficients (model literals and IERS tables) equal the committed references")
     chk.rule("R02.1", "orientation graph is a tree with exactly one provider per link; frames pair equal names")
     chk.rule("R02.2", "rate returned iff the rotation is sidereal; same model; same sign")
     chk.rule("R02.3", "composition: inverse of the expanded matrix, left accumulation, negated reverse offsets, m@state+offset")
@@ -518,4 +557,5 @@ def run(chk):
     chk.guard(r02_5, chk)
     chk.guard(r02_6, chk)
     chk.guard(r02_7, chk)
+    chk.guard(r02_8, chk)
     chk.assume("IERS readme.finals2000A column layout; rotation sequences of Vallado (IAU-76/FK5) and IERS Conventions 2010 (CIO based)")
